@@ -391,7 +391,14 @@ theorem alignDirective_safe {env : Env} {st : St} (h : Good true st) (hb : env.p
             split
             · split
               · exact safe_ok h _
-              · exact seg_result_safe h env line col (.append _) trivial (fun _ _ e => by cases e) _
+              · have hrem : seg.remaining = some (seg.maxLen - seg.buf.length) := by
+                  unfold Seg.Active.remaining
+                  rw [if_pos (h.inv.2.1 seg hseg).1]
+                rw [hrem]
+                simp only
+                split
+                · exact seg_result_safe h env line col (.append _) trivial (fun _ _ e => by cases e) _
+                · exact safe_push h ..
             · exact safe_push h ..
           | _ => exact safe_push h ..
 
